@@ -454,6 +454,24 @@ def judge_tree(q, ti, stored, kind):
 
 
 # ---------------------------------------------------------------------------
+def coq_cases_limited(ctx, name, imports, cases, chunk, prelude="", show=8):
+    """ctx.coq_cases, but the model's value is printed for the first `show` failing cases only
+    (vlib evaluates every failing case in its own sequential coqc run, which takes very long
+    when a change breaks hundreds of cases at once)"""
+    real = ctx._coq_value
+    ctx._coq_value = lambda imports_, prelude_, term: "(not evaluated)"
+    try:
+        failing = ctx.coq_cases(name, imports, cases, chunk=chunk, prelude=prelude)
+    finally:
+        ctx._coq_value = real
+    out = []
+    for n, (idx, label, val) in enumerate(failing):
+        if n < show and val == "(not evaluated)" and idx < len(cases):
+            val = real(imports, prelude, cases[idx][1])
+        out.append((idx, label, val))
+    return out
+
+
 def run_workers(ctx, hists):
     nw = min(16, max(1, len(hists)))
     chunks = [hists[i::nw] for i in range(nw)]
@@ -738,7 +756,7 @@ def run(ctx):
              "Model/Reusable.v run_history vs _maybe_run_optimizer outcomes / searches / memory keys / directory"),
             ("c14_fp", fp_cases, fp_recs, "Model/Reusable.v fingerprint vs the tuple pickled by hash_contraction_a/b"),
             ("c14_hit", hit_cases, hit_recs, "Model/Reusable.v hit_view (from_path + remove_ind) vs the tree returned")):
-        failing = ctx.coq_cases(name, ["Reusable"], cases, chunk=12 if name == "c14_hist" else 120)
+        failing = coq_cases_limited(ctx, name, ["Reusable"], cases, 12 if name == "c14_hist" else 120)
         for idx, label, val in failing:
             rec = dict(recs[idx]) if idx < len(recs) else {}
             rec["model_value"] = val
